@@ -207,7 +207,7 @@ def run(ctx):
                 Job("n3other", [1, 2, 3], "nxRv", [1, 3], 1, cap=12, maxnodes=30000),
                 Job("n2replace", [1, 2], "npsf", [1, 3], 1, cap=8, maxnodes=30000),
                 Job("n3replace", [1, 2, 3], "npf", [1, 3], 1, cap=8, maxnodes=30000),
-                Job("n3cond0", [1, 2, 0], "ncsE", [7], 1, cap=32, maxnodes=30000)]
+                Job("n3cond0", [1, 2, 0], "ncE", [1], 1, cap=32, maxnodes=30000)]
     for job in jobs:
         _run_job(ctx, exe, wd, job, stats, samples)
 
